@@ -70,11 +70,11 @@ Proof. vm_compute. reflexivity. Qed.
 Lemma end_packet_ok : unit_ok end_packet_dfa q0 end_packet = true.
 Proof. vm_compute. reflexivity. Qed.
 
-(* SEND: in every run of every frame writer (all decisions: which branch, how many iterations, whether a
+(* SEND: in every wrun of every frame writer (all decisions: which branch, how many iterations, whether a
    start_frame raises QuicPacketBuilderStop) frames and frame records alternate frame, record, frame, record ...
    with matching kinds, so there are exactly as many records as frames, in the same order *)
 Lemma writer_records_l : forall name w, In (name, w) writers ->
-  forall fuel ds t ds' o, run fuel w ds = Some (t, ds', o) ->
+  forall fuel ds t ds' o, wrun fuel w ds = Some (t, ds', o) ->
   (exists q', dfa_exec (writer_dfa frame_enc_pairs) q0 t = Some q' /\ fst q' = 0) /\
   count "frame" t = count "log" t.
 Proof.
@@ -88,25 +88,25 @@ Qed.
 
 (* SEND: each iteration of datagrams_to_send's loop over the packets flush() returned logs exactly one packet_sent;
    _end_packet appends a packet to that list at most once and logs the PADDING it adds first *)
-Lemma sent_records_l : forall fuel ds t ds' o, run fuel sent_iteration ds = Some (t, ds', o) ->
+Lemma sent_records_l : forall fuel ds t ds' o, wrun fuel sent_iteration ds = Some (t, ds', o) ->
   exists q', dfa_exec sent_dfa q0 t = Some q' /\ fst q' = 3.
 Proof.
   intros fuel ds t ds' o Hr. destruct (unit_sound _ _ _ sent_ok _ _ _ _ _ Hr) as (q' & X & A).
   exists q'. split; [exact X|]. simpl in A. apply Z.eqb_eq in A. exact A.
 Qed.
 
-Lemma end_packet_records_l : forall fuel ds t ds' o, run fuel end_packet ds = Some (t, ds', o) ->
+Lemma end_packet_records_l : forall fuel ds t ds' o, wrun fuel end_packet ds = Some (t, ds', o) ->
   exists q', dfa_exec end_packet_dfa q0 t = Some q' /\ fst q' <> 1.
 Proof.
   intros fuel ds t ds' o Hr. destruct (unit_sound _ _ _ end_packet_ok _ _ _ _ _ Hr) as (q' & X & A).
   exists q'. split; [exact X|]. simpl in A. apply negb_true_iff in A. apply Z.eqb_neq in A. exact A.
 Qed.
 
-(* RECEIVE: every run of one iteration of receive_datagram's packet loop is accepted by the packet automaton and
+(* RECEIVE: every wrun of one iteration of receive_datagram's packet loop is accepted by the packet automaton and
    ends (return / continue / next iteration) in state 3 = exactly one packet record: packet_received iff the
    packet decrypted (also when the reserved-bits check then closes the connection), packet_dropped with a trigger
    of the fixed sets otherwise, or the Version Negotiation / Retry handler, which itself logs exactly one record *)
-Lemma recv_records_l : forall fuel ds t ds' o, run fuel recv_iteration ds = Some (t, ds', o) ->
+Lemma recv_records_l : forall fuel ds t ds' o, wrun fuel recv_iteration ds = Some (t, ds', o) ->
   exists q', dfa_exec (packet_dfa pre_triggers fail_triggers) q0 t = Some q' /\ fst q' = 3.
 Proof.
   intros fuel ds t ds' o Hr. destruct (unit_sound _ _ _ recv_ok _ _ _ _ _ Hr) as (q' & X & A).
@@ -114,7 +114,7 @@ Proof.
 Qed.
 
 Lemma recv_handlers_l : forall h, h = vn_handler \/ h = retry_handler ->
-  forall fuel ds t ds' o, run fuel h ds = Some (t, ds', o) ->
+  forall fuel ds t ds' o, wrun fuel h ds = Some (t, ds', o) ->
   exists q', dfa_exec one_record_dfa q0 t = Some q' /\ fst q' = 3.
 Proof.
   intros h Hh fuel ds t ds' o Hr.
@@ -125,7 +125,7 @@ Qed.
 
 (* RECEIVE: a frame handler appends at most one frame record, and exactly one whenever it returns normally *)
 Lemma handler_records_l : forall name w, In (name, w) handlers ->
-  forall fuel ds t ds' o, run fuel w ds = Some (t, ds', o) ->
+  forall fuel ds t ds' o, wrun fuel w ds = Some (t, ds', o) ->
   exists q', dfa_exec handler_dfa q0 t = Some q' /\ (o <> Exited "raise" -> fst q' = 1).
 Proof.
   intros name w Hin fuel ds t ds' o Hr.
@@ -194,7 +194,7 @@ Proof.
     repeat split; intros; try lia; reflexivity.
 Qed.
 
-Lemma recv_counts_l : forall fuel ds t ds' o, run fuel recv_iteration ds = Some (t, ds', o) ->
+Lemma recv_counts_l : forall fuel ds t ds' o, wrun fuel recv_iteration ds = Some (t, ds', o) ->
   records t = 1 /\ count "recv" t = count "decrypt_ok" t.
 Proof.
   intros fuel ds t ds' o Hr. destruct (recv_records_l _ _ _ _ _ Hr) as (q' & X & Hq).
@@ -203,7 +203,7 @@ Qed.
 
 (* the runs are not vacuous: a decrypting packet with reserved bits set (first `return` after the record) *)
 Example recv_reserved_bits_run : exists ds t ds',
-  run 64 recv_iteration ds = Some (t, ds', Exited "return") /\ count "recv" t = 1 /\ count "decrypt_ok" t = 1.
+  wrun 64 recv_iteration ds = Some (t, ds', Exited "return") /\ count "recv" t = 1 /\ count "decrypt_ok" t = 1.
 Proof.
   exists [true; false; false; false; false; false; false; true; true]. eexists. eexists.
   split; [vm_compute; reflexivity|]. split; reflexivity.
